@@ -203,9 +203,38 @@ theorem parseOne_eapol_pseudo (n : String) (hn : n = "EAPOL" ∨ n = "EAPOL*") (
       | none => pure (Wifi.Obj.eapol (Eapol.create false), Inner.cls Wifi.eapolNull [] false)) = _
     rw [h]; rfl
 
+/-- **C03 / RC4EAPOL, RSNEAPOL, the short frame**: a key frame whose key-length field announces more bytes than the buffer
+    holds is parsed with an empty key and without payload; written back it is header ++ sub-header, and parses the same way -/
+theorem eapol_reparse_short (e : Eapol) (hw : e.WF) (n : Nat)
+    (hpos : Eapol.beAt e.sub (Eapol.keyLenOff e.rsn) 2 ≠ 0) :
+    Eapol.parse e.rsn (Eapol.hdrFor e n ++ e.sub) = .ok (⟨e.rsn, Eapol.hdrFor e n, e.sub, []⟩, .none) := by
+  have hhl : (Eapol.hdrFor e n).length = 5 := by unfold Eapol.hdrFor; rw [Dot11.patch_length]; exact hw.hdr
+  have hsl := hw.sub
+  generalize hB : Eapol.hdrFor e n ++ e.sub = B
+  have hBl : B.length = 5 + Eapol.subLen e.rsn := by rw [← hB]; simp only [List.length_append, hhl, hsl]
+  unfold Eapol.parse
+  have hinv := Cursor.ofBytes_inv B
+  have hsz : (Cursor.ofBytes B).size = B.length := rfl
+  have hmem : (Cursor.ofBytes B).mem = B := rfl
+  rcases Cursor.read_spec _ 5 hinv with ⟨hdr, c0, e0, _, _, _, _, hhdr, _⟩ | ⟨_, hlt⟩
+  · have hhdr' : hdr = Eapol.hdrFor e n := by rw [hhdr, hmem, ← hB]; exact List.take_left' hhl
+    rcases Cursor.skip_spec _ 5 hinv with ⟨c1, e1, i1, s1, _⟩ | ⟨_, hlt⟩
+    · have hm1 : c1.mem = e.sub := by
+        rw [Wifi.skip_mem _ _ _ e1, hmem, ← hB]; exact List.drop_left' hhl
+      rcases Cursor.read_spec c1 (Eapol.subLen e.rsn) i1 with ⟨sub, c2, e2, i2, _, s2, _, hsub, hm2⟩ | ⟨_, hlt⟩
+      · have hsub' : sub = e.sub := by rw [hsub, hm1]; exact List.take_of_length_le (by omega)
+        subst hhdr'; subst hsub'
+        simp only [e0, e1, e2, bind, Out.bind]
+        have hlt : ¬ c2.size ≥ Eapol.beAt e.sub (Eapol.keyLenOff e.rsn) 2 := by omega
+        simp only [hlt, ↓reduceIte]
+        rfl
+      · omega
+    · omega
+  · omega
+
 /-- what both EAPOL steps share: the writer's output and the constructor's result on it -/
 theorem eapol_written (e : Eapol) (os : List AnyObj) (hw : e.WF) (hside : Side (.wifi (.eapol e)) os) (region io : Bytes)
-    (hlen : region.length = e.hdrSize + sizeOfStack os) (hio : region.drop e.hdrSize = io) :
+    (hlen : region.length = e.hdrSize + sizeOfStack os) (hio : region.drop e.hdrSize = io) (hnil : os = [] → io = []) :
     ∃ out, e.write region = .ok out ∧ out.length = region.length ∧
       (∃ rest, out = Eapol.hdrFor e region.length ++ rest) ∧
       Eapol.parse e.rsn out = .ok (⟨e.rsn, Eapol.hdrFor e region.length, Eapol.subForWrite e, e.key⟩,
@@ -215,10 +244,23 @@ theorem eapol_written (e : Eapol) (os : List AnyObj) (hw : e.WF) (hside : Side (
   rw [hio] at hweq
   have hhl : (Eapol.hdrFor e region.length).length = 5 := by unfold Eapol.hdrFor; rw [Dot11.patch_length]; exact hw.hdr
   have hiol : io.length = region.length - e.hdrSize := by rw [← hio]; simp
-  refine ⟨_, hweq, ?_, ⟨_, rfl⟩, Eapol.eapol_reparse e hw io region.length hkl hk0⟩
-  simp only [List.length_append, hhl, Eapol.subForWrite_length e hw, hiol]
-  simp only [Eapol.hdrSize] at hlen ⊢
-  omega
+  refine ⟨_, hweq, ?_, ⟨_, rfl⟩, ?_⟩
+  · simp only [List.length_append, hhl, Eapol.subForWrite_length e hw, hiol]
+    simp only [Eapol.hdrSize] at hlen ⊢
+    omega
+  · by_cases hshort : e.key = [] ∧ Eapol.beAt e.sub (Eapol.keyLenOff e.rsn) 2 ≠ 0
+    · obtain ⟨hk, hne⟩ := hshort
+      have hos : os = [] := (hk0 hk).resolve_left hne
+      have hio0 := hnil hos
+      have hsub : Eapol.subForWrite e = e.sub := by simp [Eapol.subForWrite, hk]
+      rw [hio0, hk, hsub]
+      simp only [List.append_nil, if_true]
+      exact eapol_reparse_short e hw region.length hne
+    · refine Eapol.eapol_reparse e hw io region.length hkl ?_
+      intro hk
+      by_cases h0 : Eapol.beAt e.sub (Eapol.keyLenOff e.rsn) 2 = 0
+      · exact h0
+      · exact absurd ⟨hk, h0⟩ hshort
 
 /-- **RC4EAPOL / RSNEAPOL step, entered under the class name** (entry class: nothing follows the region) -/
 theorem eapol_step (ps : List LayerInfo) (e : Eapol) (os : List AnyObj) (hw : e.WF) (hside : Side (.wifi (.eapol e)) os)
@@ -229,7 +271,7 @@ theorem eapol_step (ps : List LayerInfo) (e : Eapol) (os : List AnyObj) (hw : e.
       parseOne (AnyObj.wifi (.eapol e)).info.1 out = .ok (x', inner) ∧
       layerView false x' = layerView false (.wifi (.eapol e)) ∧
       StepInnerA (.wifi (.eapol e)) os io 0 x' inner := by
-  rcases eapol_written e os hw hside region io hlen hio with ⟨out, hwr, hol, _, hp⟩
+  rcases eapol_written e os hw hside region io hlen hio hnil with ⟨out, hwr, hol, _, hp⟩
   refine ⟨out, .wifi (.eapol ⟨e.rsn, Eapol.hdrFor e region.length, Eapol.subForWrite e, e.key⟩),
     (if io = [] then .none else .raw io), hwr, hol, ?_,
     eapol_view_of false e region.length, ?_⟩
@@ -248,7 +290,7 @@ theorem eapol_step_pseudo (ps : List LayerInfo) (e : Eapol) (os : List AnyObj) (
       parseOne n (out ++ List.replicate k 0) = .ok (x', inner) ∧
       layerView false x' = layerView false (.wifi (.eapol e)) ∧
       StepInnerA (.wifi (.eapol e)) os io k x' inner := by
-  rcases eapol_written e os hw hside region io hlen hio with ⟨out, hwr, hol, hrest, hp⟩
+  rcases eapol_written e os hw hside region io hlen hio hnil with ⟨out, hwr, hol, hrest, hp⟩
   have hsz : e.hdrSize + sizeOfStack os < 65540 := hside.2.2
   have h48 : 48 ≤ e.hdrSize := by simp only [Eapol.hdrSize, Eapol.subLen]; split <;> omega
   have hfb := eapol_fromBytes_written e hw ht out (List.replicate k 0) region.length hrest hol ⟨by omega, by omega⟩
